@@ -73,6 +73,10 @@ func (s script) finalErr() error {
 		return context.DeadlineExceeded // a handler passing on the error of some inner call, not a status
 	case "bare-canceled":
 		return context.Canceled
+	case "wrapped-deadline":
+		return fmt.Errorf("inner call: %w", context.DeadlineExceeded) // the same, with context added on the way up
+	case "wrapped-canceled":
+		return fmt.Errorf("inner call: %w", context.Canceled)
 	}
 	return nil
 }
@@ -523,7 +527,7 @@ func scripts(thorough bool) []script {
 	for n := 1; n <= maxN; n++ {
 		out = append(out, script{Shape: "sstream", HeaderMode: "set", N: n, Final: "ok", ErrAfter: -1, Client: "normal", Quirk: "reuse-msg"})
 	}
-	for _, f := range []string{"bare-deadline", "bare-canceled"} {
+	for _, f := range []string{"bare-deadline", "bare-canceled", "wrapped-deadline", "wrapped-canceled"} {
 		for _, shape := range []string{"unary", "sstream", "cstream", "bidi"} {
 			out = append(out, script{Shape: shape, HeaderMode: "set", Trailer: true, N: 1, Final: f, ErrAfter: -1, Client: "normal"})
 		}
